@@ -131,7 +131,7 @@ func mainRuntime() []byte {
 	// selector = calldataload(0) >> 248
 	a.push(0).op(opCALLDATALOAD).push(248).op(opSHR)
 	sels := []string{"receive", "store", "load", "forward", "revertdata", "invalid", "loop", "destruct", "create", "callmayberevert",
-		"trycall", "balances", "static", "delegate", "ecrecover", "create2", "clear", "destructself", "multicall", "rawcall"}
+		"trycall", "balances", "static", "delegate", "ecrecover", "create2", "clear", "destructself", "multicall", "rawcall", "nest"}
 	for i, s := range sels {
 		a.op(opDUP1).push(uint64(i)).op(opEQ).pushLabel(s).op(opJUMPI)
 	}
@@ -314,6 +314,19 @@ func mainRuntime() []byte {
 	a.push(11).op(opSSTORE)
 	a.op(opRETURNDATASIZE).push(0).push(0).op(opRETURNDATACP)
 	a.op(opRETURNDATASIZE).push(0).op(opRETURN)
+
+	// nest: CALL(100000, A, CALLVALUE, [sel][W]) with sel = low byte of D, W = C; afterwards revert if B != 0.
+	// A nested frame that returns normally (and first touches W there) inside an outer frame that fails.
+	a.label("nest")
+	argC()
+	a.push(1).op(opMSTORE)
+	a.push(97).op(opCALLDATALOAD).push(0xff).op(opAND).push(0).op(opMSTORE8)
+	a.push(0).push(0).push(33).push(0).op(opCALLVALUE)
+	argA()
+	a.push(100000).op(opCALL).push(12).op(opSSTORE)
+	argB()
+	a.pushLabel("dorevert").op(opJUMPI)
+	a.op(opSTOP)
 	return a.bytes()
 }
 
@@ -497,6 +510,29 @@ func (g *Gen) draftEVM(kind string, h int64, sh *MState, P *DParams, price *big.
 			mc("multicall-destructself-then-pay-same", x, 17, x, 0, nil, val()),
 			mc("multicall-destruct-then-destruct-into-it", x, 7, y, 7, x, val()),
 			mc("multicall-oog-then-pay", x, 6, x, 0, nil, val()),
+		)
+		// nested frame succeeds (touching a third party for the first time inside it), outer frame fails or not
+		nest := func(name string, a1 []byte, sel byte, w []byte, revert uint64, v *big.Int) cs {
+			d := callData(20, a1, wordU(revert), w)
+			d = append(d, wordU(uint64(sel))...)
+			return cs{name, d, v, revert != 0}
+		}
+		third := func() []byte {
+			if g.rng.Intn(3) == 0 {
+				return anyTarget()
+			}
+			return g.pick(g.All).Addr
+		}
+		cands = append(cands,
+			cs{"call0-then-revert", callData(9, third(), nil, wordU(1)), val(), true},
+			cs{"call0-then-ok", callData(9, third(), nil, wordU(0)), val(), false},
+			nest("nest-balances-then-revert", x, 11, third(), 1, new(big.Int)),
+			nest("nest-self-balances-then-revert", to, 11, third(), 1, val()),
+			nest("nest-forward-then-revert", x, 3, third(), 1, val()),
+			nest("nest-destruct-then-revert", x, 7, third(), 1, new(big.Int)),
+			nest("nest-balances-then-ok", x, 11, third(), 0, new(big.Int)),
+			nest("nest-forward-then-ok", x, 3, third(), 0, val()),
+			nest("nest-nest-then-revert", x, 20, third(), 1, new(big.Int)),
 		)
 		ch := cands[g.rng.Intn(len(cands))]
 		d := mk(rctypes.TRX_CONTRACT, k, to, ch.value, &rctypes.TrxPayloadContract{Data: ch.data}, "call:"+ch.name)
